@@ -189,8 +189,8 @@ func findVersionParser(p *Prog) (*ssa.Function, map[string]bool, string) {
 }
 
 func checkC03(p *Prog, rp *Report) {
-	rp.Explanation = "(C03-TABLE, C03-ALPHA, C03-RESET, C03-CODEC and C03-ROUNDTRIP are decided by abstract interpretation of Parse / UnmarshalControl / UnmarshalText / String / Marshal* on a generated family of strings against a Policy 5.6.12 reference; the descriptions below name the clauses they cover.) C03-ONE: Parse, UnmarshalText and UnmarshalControl all reach one parse function. C03-GUARDS: on that function's SSA every rejection the property names is a branch that returns an error and dominates every success return (trimmed first; empty; embedded white space; epoch located by the FIRST colon and parsed base 10, parse error and negative rejected; upstream non-empty after the revision split at the LAST hyphen; first upstream byte a digit). C03-ALPHA: the two character predicates evaluated abstractly on every byte and on probe runes equal the Policy alphabets. C03-RESET: every success path assigns Epoch, Version and Revision. C03-RENDER: decision table of String/StringWithoutEpoch (epoch iff >0 or ':' in upstream; '-' revision iff non-empty or '-' in upstream). C03-CODEC: Marshal* return String() through conversions only; Unmarshal* hand their argument to the parse function through conversions only. C03-EPOCHWIDTH: the integer parse cannot exceed the Epoch field on a 32 bit platform (GOARCH=386 load). Together (DESIGN §3 C03) ALPHA+GUARDS+RENDER imply render->parse is the identity on accepted values: the revision alphabet excludes ':' and '-', so the first colon / last hyphen of a rendering are the ones the renderer wrote."
-	rp.NotDecided = "that the library calls used (strings.Index, LastIndex, IndexFunc, TrimSpace, strconv.ParseInt, fmt.Sprintf) behave as documented; acceptance of every string of the Policy grammar is implied by the guard table only under those contracts."
+	rp.Explanation = "C03-ONE: Parse, UnmarshalText and UnmarshalControl all reach one parse function (call graph). C03-TABLE: that function is interpreted abstractly on a generated family of strings (every combination of 16 epoch shapes, 14 upstream shapes and 8 revision shapes, plus surrounding white space) and compared with a Policy 5.6.12 reference: accept/reject and, on acceptance, epoch, upstream and revision. C03-ALPHA: every byte value and six multi-byte runes probed inside the upstream and the revision part are accepted iff they are in the Policy alphabets. C03-RESET: parsing into a Version that already holds a value overwrites epoch, upstream and revision. C03-CODEC: MarshalText / MarshalControl return String(); UnmarshalText / UnmarshalControl accept exactly what Parse accepts, with the same result. C03-RENDER: decision table of String / StringWithoutEpoch (epoch iff > 0 or ':' in upstream; '-' and the revision iff the revision is non-empty or the upstream contains '-'). C03-ROUNDTRIP: Parse(String(Parse(s))) = Parse(s) for every accepted member of the family. C03-EPOCHWIDTH: Parse of the GOARCH=386 load, interpreted with 32 bit int/uint on epochs around 2^31 and 2^32, accepts an epoch only with its exact value."
+	rp.NotDecided = "strings outside the generated family (the family is built from the grammar's token classes and the positions the parser distinguishes: first colon, last hyphen, first byte of the upstream part)."
 	rp.Trusted = []string{"go/types, go/ssa", "contracts of strings.*, strconv.ParseInt, unicode.IsSpace/IsDigit, fmt.Sprintf(%d:%s)", "Policy §5.6.12 alphabets as written in c03.go"}
 
 	one := rp.Rule("C03-ONE", "all parsing entry points reach one parse function", 3)
